@@ -12,20 +12,22 @@ void print_i64(int64_t value) {
   char *start = &buf[MAX_DIGITS_INT];
 
   bool negative = false;
+  // the magnitude of the minimum integer is not representable as a signed integer
+  uint64_t magnitude = (uint64_t)value;
 
   if (value < 0) {
     negative = true;
-    value = -value;
+    magnitude = -magnitude;
   }
 
-  int64_t prev_value;
+  uint64_t prev_magnitude;
 
   do {
-    prev_value = value;
-    value /= 10;
+    prev_magnitude = magnitude;
+    magnitude /= 10;
     start--;
-    *start = '0' + (prev_value - value * 10);
-  } while (value);
+    *start = '0' + (prev_magnitude - magnitude * 10);
+  } while (magnitude);
 
   if (negative) {
     start--;
@@ -41,20 +43,22 @@ void println_i64(int64_t value) {
   *start = '\n';
 
   bool negative = false;
+  // the magnitude of the minimum integer is not representable as a signed integer
+  uint64_t magnitude = (uint64_t)value;
 
   if (value < 0) {
     negative = true;
-    value = -value;
+    magnitude = -magnitude;
   }
 
-  int64_t prev_value;
+  uint64_t prev_magnitude;
 
   do {
-    prev_value = value;
-    value /= 10;
+    prev_magnitude = magnitude;
+    magnitude /= 10;
     start--;
-    *start = '0' + (prev_value - value * 10);
-  } while (value);
+    *start = '0' + (prev_magnitude - magnitude * 10);
+  } while (magnitude);
 
   if (negative) {
     start--;
